@@ -20,7 +20,7 @@ NPROC = int(os.environ.get("VERIF_NPROC", "16"))
 
 
 class Case:
-    def __init__(self, harness, label, shape, target=(), group=None, timeout_ms=None, expect=None, no_loop_specs=False, overrides=None):
+    def __init__(self, harness, label, shape, target=(), group=None, timeout_ms=None, expect=None, no_loop_specs=False, overrides=None, replay=True):
         self.harness = harness
         self.label = label
         self.shape = shape
@@ -28,6 +28,7 @@ class Case:
         self.group = group or harness.split(".")[-1]
         self.timeout_ms = timeout_ms
         self.no_loop_specs = no_loop_specs
+        self.replay = replay  # False: the harness only makes sense symbolically (mid-loop states): no native replay of counter-models
         self.overrides = dict(overrides or {})  # assumed contracts on dependencies for this case only
         self.expect = expect  # None (must be proved) | "refuted" (sentinel that must fail)
 
@@ -95,13 +96,15 @@ def _run_case(arg):
             "harness": case.harness, "case": case.label, "group": case.group, "unsupported": res.unsupported, "paths": res.paths,
             "seconds": 0.0, "inlined": sorted(res.inlined), "used_contracts": sorted(res.used_contracts),
             "used_overrides": sorted(res.used_overrides), "assumed": list(res.assumed), "obligations": [], "expect": case.expect,
-            "target": case.target, "cover": res.cover, "overrides": case.overrides,
+            "target": case.target, "cover": res.cover, "overrides": case.overrides, "replayable": case.replay,
         }
         for ob in res.obligations:
             solve.discharge(ob, case.timeout_ms or timeout_ms)
             d = {"name": ob.name, "ident": ob.ident(), "verdict": ob.verdict, "backend": ob.backend, "ms": round(ob.ms, 2), "note": ob.note,
                  "kind": ob.kind}
-            if ob.verdict == "refuted" and want_replay:
+            if ob.verdict == "refuted" and want_replay and not case.replay:
+                d["model"] = {k: solve.model_value(ob.model, v) for k, v in ob.symbols.items() if not str(v.sort()).startswith("Array")}
+            elif ob.verdict == "refuted" and want_replay:
                 try:
                     params, st0 = res.inputs
                     d["model"] = {k: solve.model_value(ob.model, v) for k, v in ob.symbols.items() if not str(v.sort()).startswith("Array")}
@@ -121,7 +124,7 @@ def _run_case(arg):
         # an internal error of the interpreter on this input is 'unsupported' (undecided), never a verdict about the code
         return {"harness": hname, "case": label, "group": "?", "obligations": [],
                 "unsupported": f"engine-internal: {type(e).__name__}: {e} @ {traceback.format_exc().strip().splitlines()[-3].strip()[:120]}", "paths": 0, "seconds": 0, "inlined": [], "used_contracts": [], "used_overrides": [], "assumed": [],
-                "expect": None, "target": tgt, "cover": None, "overrides": {}}
+                "expect": None, "target": tgt, "cover": None, "overrides": {}, "replayable": True}
 
 
 def run_cases(modname, ncases, mutant_key=None, timeout_ms=10000, want_replay=True, nproc=NPROC, only=None):
